@@ -38,6 +38,10 @@ pub struct HistoryInput {
     pub spec: WsSpec,
     pub ops: Vec<HOp>,
     pub sim: SimParams,
+    /// the index is first built by the real workspace scan (venv plugins get their markers) instead of
+    /// per-file analyses; the cold twin then scans too
+    #[serde(default)]
+    pub scan_first: bool,
     pub run_seed: u64,
     #[serde(default)]
     pub sandbox: Option<String>,
@@ -132,8 +136,18 @@ impl Scenario for History {
             "C07" => rng.chance(700),
             _ => rng.chance(350),
         };
+        let mut scan_first = false;
         let spec = if self.prop == "C07" && rng.chance(160) {
             if rng.chance(600) { super::ws::ring_ws(&mut rng) } else { super::ws::diamond_ws(&mut rng) }
+        } else if self.prop == "C07" && rng.chance(250) {
+            // a workspace with a venv (third-party plugin, in-workspace editable plugin): built by the real scan
+            scan_first = true;
+            let mut o = WsOpts::default();
+            o.max_dirs = 2;
+            o.n_names = 3;
+            o.venv = true;
+            o.file.in_class = false;
+            gen_ws(&mut rng, &o)
         } else {
             small_ws(&mut rng, imports)
         };
@@ -164,7 +178,11 @@ impl Scenario for History {
                         continue;
                     }
                     3 => {
-                        ops.push(HOp::OpenClose { file: f });
+                        ops.push(HOp::OpenClose { file: f.clone() });
+                        if rng.chance(500) {
+                            // the editor re-opens the document it just closed
+                            ops.push(HOp::Analyze { file: f.clone(), text: cur[&f].clone() });
+                        }
                         continue;
                     }
                     4 => {
@@ -194,7 +212,7 @@ impl Scenario for History {
         // cache-pressure runs perform > 2000 analyses: the step budget is a liveness bound for the
         // code under test, not for the workload size
         sim.max_steps = if filled { 4_000_000_000 } else { 50_000_000 };
-        serde_json::to_value(HistoryInput { spec, ops, sim, run_seed, sandbox: None }).unwrap()
+        serde_json::to_value(HistoryInput { spec, ops, sim, scan_first, run_seed, sandbox: None }).unwrap()
     }
 
     fn exec(&self, input: &Value) -> RunOut {
@@ -211,7 +229,8 @@ impl Scenario for History {
         let prop = self.prop;
         let spec = inp.spec.clone();
         let ops = inp.ops.clone();
-        let (oc, res) = simrt::run(inp.sim.cfg(replay_list(input, 0)), move || if prop == "C06L" { run_history_lsp(&spec, &ops, &root) } else { run_history(prop, &spec, &ops, &root) });
+        let scan_first = inp.scan_first;
+        let (oc, res) = simrt::run(inp.sim.cfg(replay_list(input, 0)), move || if prop == "C06L" { run_history_lsp(&spec, &ops, &root) } else { run_history(prop, &spec, &ops, &root, scan_first) });
         out.absorb_outcome(&oc);
         out.fingerprint = fnv(&serde_json::to_string(&(&inp.spec, &inp.ops)).unwrap());
         if let Some(a) = &oc.abort {
@@ -314,17 +333,25 @@ fn run_history_lsp(spec: &WsSpec, ops: &[HOp], root: &Path) -> HRes {
     res
 }
 
-fn run_history(prop: &str, spec: &WsSpec, ops: &[HOp], root: &Path) -> HRes {
+fn run_history(prop: &str, spec: &WsSpec, ops: &[HOp], root: &Path, scan_first: bool) -> HRes {
     let mut res = HRes::default();
     let live = Arc::new(FixtureDatabase::new());
     // the analyses performed so far, in order: (file, text)
     let mut log: Vec<(String, String)> = vec![];
     let disk: BTreeMap<String, String> = spec.files.iter().map(|f| (f.rel.clone(), render(&f.items).text)).collect();
     let mut cur: BTreeMap<String, String> = BTreeMap::new();
-    for (f, t) in initial_order(spec) {
-        live.analyze_file(root.join(&f), &t);
-        cur.insert(f.clone(), t.clone());
-        log.push((f, t));
+    if scan_first {
+        live.scan_workspace(root);
+        for (f, t) in initial_order(spec) {
+            cur.insert(f, t);
+        }
+        res.count("fault.index_built_by_real_scan_with_venv");
+    } else {
+        for (f, t) in initial_order(spec) {
+            live.analyze_file(root.join(&f), &t);
+            cur.insert(f.clone(), t.clone());
+            log.push((f, t));
+        }
     }
     let mut touched: BTreeMap<String, usize> = BTreeMap::new();
     let mut queried_before_analysis = false;
@@ -412,7 +439,7 @@ fn run_history(prop: &str, spec: &WsSpec, ops: &[HOp], root: &Path) -> HRes {
                     if queried_before_analysis || disturbed {
                         res.nontrivial = true;
                     }
-                    check_cold_twin(&mut res, &live, &log, root, step, spec);
+                    check_cold_twin(&mut res, &live, &log, root, step, spec, scan_first);
                 }
             }
         }
@@ -550,8 +577,11 @@ fn check_refs_relation(res: &mut HRes, live: &Arc<FixtureDatabase>, cur: &BTreeM
 }
 
 /// C07: cold twin = the same analyses (same order, same texts) with no queries, closes, fillers.
-fn check_cold_twin(res: &mut HRes, live: &Arc<FixtureDatabase>, log: &[(String, String)], root: &Path, step: usize, spec: &WsSpec) {
+fn check_cold_twin(res: &mut HRes, live: &Arc<FixtureDatabase>, log: &[(String, String)], root: &Path, step: usize, spec: &WsSpec, scan_first: bool) {
     let cold = Arc::new(FixtureDatabase::new());
+    if scan_first {
+        cold.scan_workspace(root);
+    }
     for (f, t) in log {
         cold.analyze_file(root.join(f), t);
     }
